@@ -525,6 +525,7 @@ class Unit:
         inside = False
         out = []
         marked = set()
+        skipping = set()
         for l in lines:
             if 'export-begin' in l.flags:
                 inside = True
@@ -538,9 +539,17 @@ class Unit:
             if l.item is not None:
                 it = other.items[l.item]
                 is_fn = it.kind == 'item' and rustscan.parse_path(it.path_text)[-1][0] == 'fn'
-                if is_fn and not it.trusted and l.item not in marked:
-                    marked.add(l.item)
-                    out.append(Line('#[verifier::external_body] // imported from unit %s: contract proved there' % name, 'raw'))
+                if is_fn and not it.trusted:
+                    if l.item in skipping:
+                        continue
+                    if l.item not in marked:
+                        marked.add(l.item)
+                        out.append(Line('#[verifier::external_body] // imported from unit %s: contract proved there' % name, 'raw'))
+                    if 'body_open' in l.flags:
+                        # the body is not re-verified here: drop it
+                        out.append(Line(l.text[:len(l.text) - len(l.text.lstrip())] + '{ unimplemented!() }', 'raw'))
+                        skipping.add(l.item)
+                        continue
             out.append(nl)
         if not out:
             raise UnitError('%s: import %s has no //@export-begin … //@export-end region' % (self.name, name))
